@@ -81,29 +81,29 @@ var absentVariants = map[string][]string{
 	"T{...}":                          {"[]T{{1, 2}, {}}"},
 	"x[y:]":                           {"a[:]", "a[:2]", "a[1:2:3]"},
 	"switch x { ... }":                {"switch {\ndefault:\n}"},
-	"switch x {\ncase y:\n ...\n}":     {"switch a {\ndefault:\n}", "switch {\ncase b:\n}"},
+	"switch x {\ncase y:\n ...\n}":    {"switch a {\ndefault:\n}", "switch {\ncase b:\n}"},
 	"switch x := y.(type) {\ncase T:\n ...\n}": {"switch b.(type) {\ncase int:\n}", "switch v := b.(type) {\ndefault:\n\t_ = v\n}"},
-	"for x := range y { ... }":        {"for range ch {\n}", "for a, b := range m {\n}"},
-	"for x := 0; x < y; x++ { ... }":  {"for ; a < 3; {\n}", "for {\n}", "for a < 3 {\n}"},
-	"select {\ncase x := <-y:\n ...\n}": {"select {\ncase <-ch:\n}", "select {\ndefault:\n}"},
-	"func (x T) f() { ... }":          {"func f() {\n}", "func (T) f() {\n}"},
-	"func (x *T) f(...) (...) { ... }": {"func f() {\n}", "func (*T) f() {\n}"},
-	"func f() (x T) { ... }":          {"func f() {\n}", "func f() T {\n\treturn 0\n}"},
-	"func f(x T) { ... }":             {"func f(T) {\n}", "func f() {\n}"},
-	"func f(x T, ...) y { ... }":      {"func f(T) {\n}", "func f(a T) {\n}"},
-	"func f[x any](y x) { ... }":      {"func f(y int) {\n}"},
-	"func f()":                        {"func f() {\n}"},
-	"func f(x ...T) { ... }":          {"func f(...T) {\n}"},
-	"type x struct { y T }":           {"type a struct{ T }", "type a struct {\n\tb T `tag`\n}"},
-	"type x[y any] T":                 {"type a T"},
-	"func(x T) y { ... }":             {"func(a T) {\n}", "func(T) int {\n\treturn 0\n}"},
-	"func(x ...T) {}":                 {"func(...T) {}"},
-	"x.(T)":                           {"a.(int)"},
-	"struct{ x T }":                   {"struct{ T }"},
-	"go x()":                          {"go func() {}()"},
-	"x, y := f()":                     {"a := f()"},
-	"var x, y = f()":                  {"var a = f()"},
-	"import x \"a/b\"":                {"import \"a/b\""},
+	"for x := range y { ... }":                 {"for range ch {\n}", "for a, b := range m {\n}"},
+	"for x := 0; x < y; x++ { ... }":           {"for ; a < 3; {\n}", "for {\n}", "for a < 3 {\n}"},
+	"select {\ncase x := <-y:\n ...\n}":        {"select {\ncase <-ch:\n}", "select {\ndefault:\n}"},
+	"func (x T) f() { ... }":                   {"func f() {\n}", "func (T) f() {\n}"},
+	"func (x *T) f(...) (...) { ... }":         {"func f() {\n}", "func (*T) f() {\n}"},
+	"func f() (x T) { ... }":                   {"func f() {\n}", "func f() T {\n\treturn 0\n}"},
+	"func f(x T) { ... }":                      {"func f(T) {\n}", "func f() {\n}"},
+	"func f(x T, ...) y { ... }":               {"func f(T) {\n}", "func f(a T) {\n}"},
+	"func f[x any](y x) { ... }":               {"func f(y int) {\n}"},
+	"func f()":                                 {"func f() {\n}"},
+	"func f(x ...T) { ... }":                   {"func f(...T) {\n}"},
+	"type x struct { y T }":                    {"type a struct{ T }", "type a struct {\n\tb T `tag`\n}"},
+	"type x[y any] T":                          {"type a T"},
+	"func(x T) y { ... }":                      {"func(a T) {\n}", "func(T) int {\n\treturn 0\n}"},
+	"func(x ...T) {}":                          {"func(...T) {}"},
+	"x.(T)":                                    {"a.(int)"},
+	"struct{ x T }":                            {"struct{ T }"},
+	"go x()":                                   {"go func() {}()"},
+	"x, y := f()":                              {"a := f()"},
+	"var x, y = f()":                           {"var a = f()"},
+	"import x \"a/b\"":                         {"import \"a/b\""},
 }
 
 // IllTyped is a generated patch with the target file it is meant to hit.
